@@ -1,7 +1,8 @@
 //! C05 correspondence: siphash, the five Cuckoo-cycle verifiers, Proof packing / difficulty.
 //!
 //! modes (first arg): `sip`, `exh`, `solve`, `pack`, `select`, `hist` (one context object through
-//! solve / verify / re-seed histories), `dif` (difficulty over the full parameter space);
+//! solve / verify / re-seed histories), `dif` (difficulty over the full parameter space), `vsize` (every nonce count through
+//! `pow::verify_size`);
 //! internal: `hangprobe`.
 //!
 //! The siphash functions live in a private module of grin_core; the *real source file* is
@@ -2343,6 +2344,261 @@ fn dif(out: &mut Out, rng: &mut Rng, thorough: bool) {
 	out.raw(&format!("#STAT dif Rust-side oracle (floor characterisation by multiplication) failures={} determinism failures={}", bad, nondet));
 }
 
+// ---------------------------------------------------------------------------------------------
+// (vii) the node's entry point `pow::verify_size(&BlockHeader)`: every nonce count through it
+
+fn vsize(out: &mut Out, rng: &mut Rng, thorough: bool) {
+	use grin_core::consensus::{header_version, HARD_FORK_INTERVAL, TESTING_HARD_FORK_INTERVAL};
+	use grin_core::core::hash::Hash;
+	use grin_core::core::BlockHeader;
+	use grin_core::genesis;
+	use grin_core::pow::{pow_size, verify_size, Difficulty};
+	let chains = [
+		(ChainTypes::AutomatedTesting, "automatedtesting"),
+		(ChainTypes::UserTesting, "usertesting"),
+		(ChainTypes::Testnet, "testnet"),
+		(ChainTypes::Mainnet, "mainnet"),
+	];
+	let vs_name = |r: &Result<(), Error>| -> &'static str {
+		match r {
+			Err(Error::Verification(s)) if s == "no cuckaroo past HardFork4" => "noctx",
+			_ => err_name(r),
+		}
+	};
+	// statistics: (chain, count class) -> verdict -> n
+	let mut st: HashMap<(String, &'static str), HashMap<&'static str, u64>> = HashMap::new();
+	let mut versions: HashMap<String, u64> = HashMap::new();
+	let (mut mined, mut mine_attempt_fail, mut headers, mut genuine_full_ok, mut bad, mut skip_ok, mut skip_total) = (0u64, 0u64, 0u64, 0u64, 0u64, 0u64, 0u64);
+	// one verify_size call: line + the rule-fixed part as a Rust-side oracle
+	let mut offer = |bh: &BlockHeader, cname: &str, ps: usize, genuine: bool, what: &'static str, out: &mut Out, st: &mut HashMap<(String, &'static str), HashMap<&'static str, u64>>, bad: &mut u64| -> &'static str {
+		let b2 = bh.clone();
+		let res = match catch(move || {
+			let r = verify_size(&b2);
+			vs_name(&r)
+		}) {
+			Ok(s) => s,
+			Err(_) => "panic",
+		};
+		// pipeline self-test (never set by ./check): pretend the count test is missing for prefixes
+		let res = if std::env::var("VERIF_POW_SELFTEST_VSIZE").is_ok() && what == "prefix" && bh.pow.proof.nonces.len() + 1 == ps && genuine { "ok" } else { res };
+		let n = bh.pow.proof.nonces.len();
+		*st.entry((cname.to_string(), what)).or_default().entry(res).or_insert(0) += 1;
+		let pre = bh.pre_pow();
+		if n != ps && (res == "ok" || res == "panic") {
+			*bad += 1;
+			out.raw(&format!(
+				"#ORACLE-FAIL C05 verify_size {} a header carrying {} nonces where exactly {} are required: chain={} height={} version={} edge_bits={} pre_pow={} nonces={} case={}",
+				if res == "ok" { "accepts" } else { "panics on" }, n, ps, cname, bh.height, bh.version.0, bh.pow.proof.edge_bits, hex(&pre), nat_list(&bh.pow.proof.nonces), what
+			));
+		}
+		if n == ps && genuine && res != "ok" {
+			*bad += 1;
+			out.raw(&format!(
+				"#ORACLE-FAIL C05 verify_size refuses ({}) a genuinely mined header: chain={} height={} version={} edge_bits={} pre_pow={} nonces={}",
+				res, cname, bh.height, bh.version.0, bh.pow.proof.edge_bits, hex(&pre), nat_list(&bh.pow.proof.nonces)
+			));
+		}
+		out.line(
+			&format!("pow vsize {} {} {} {} {}", cname, bh.height, bh.pow.proof.edge_bits, hex(&pre), nat_list(&bh.pow.proof.nonces)),
+			res,
+		);
+		res
+	};
+	for (ct, cname) in chains.iter() {
+		global::set_local_chain_type(*ct);
+		let ps = global::proofsize();
+		let min_eb = global::min_edge_bits();
+		let testing = *ct == ChainTypes::AutomatedTesting || *ct == ChainTypes::UserTesting;
+		// heights on both sides of every hard fork (header versions 1..5), and beyond the u16 cast
+		// of header_version's interval count
+		let mut heights: Vec<u64> = vec![];
+		match ct {
+			ChainTypes::AutomatedTesting | ChainTypes::UserTesting => {
+				let t = TESTING_HARD_FORK_INTERVAL;
+				for k in 1..=4u64 {
+					heights.push(k * t - 1);
+					heights.push(k * t);
+				}
+				heights.extend_from_slice(&[0, 1, 4 * t + 2, 100, 65535 * t, 65536 * t]);
+			}
+			ChainTypes::Mainnet => {
+				let t = HARD_FORK_INTERVAL;
+				for k in 1..=4u64 {
+					heights.push(k * t - 1);
+					heights.push(k * t);
+				}
+				heights.extend_from_slice(&[0, 1, 5 * t, 65535 * t, 65536 * t, 65538 * t]);
+			}
+			_ => {
+				for t in [185_040u64, 298_080, 552_960, 642_240].iter() {
+					heights.push(*t - 1);
+					heights.push(*t);
+				}
+				heights.extend_from_slice(&[0, 1, 1_000_000]);
+			}
+		}
+		for _ in 0..(if thorough { 12 } else { 2 }) {
+			heights.push(match ct {
+				ChainTypes::AutomatedTesting | ChainTypes::UserTesting => rng.below(20),
+				_ => rng.below(6 * HARD_FORK_INTERVAL),
+			});
+		}
+		let mut ebs: Vec<u8> = vec![min_eb, 29, 31, 32];
+		ebs.dedup();
+		let mut user_mined = 0;
+		for h in heights.iter() {
+			let ver = header_version(*h);
+			*versions.entry(format!("{}:v{}", cname, ver.0)).or_insert(0) += 1;
+			for eb in ebs.iter() {
+				let mask = (1u64 << eb) - 1;
+				let mut bh = BlockHeader::default();
+				bh.height = *h;
+				bh.version = if rng.chance(1, 8) { grin_core::core::HeaderVersion(rng.range(0, 6) as u16) } else { ver };
+				bh.prev_hash = Hash::from_vec(&rng.bytes(32));
+				bh.prev_root = Hash::from_vec(&rng.bytes(32));
+				bh.output_root = Hash::from_vec(&rng.bytes(32));
+				bh.kernel_root = Hash::from_vec(&rng.bytes(32));
+				bh.output_mmr_size = rng.below(1 << 20);
+				bh.kernel_mmr_size = rng.below(1 << 20);
+				bh.pow.nonce = rng.next();
+				bh.pow.secondary_scaling = rng.next() as u32;
+				bh.pow.total_difficulty = Difficulty::from_num(rng.next() >> rng.below(64));
+				bh.pow.proof.edge_bits = *eb;
+				// a genuinely mined header where the repo's miner can do it (testing types at their
+				// minimum edge_bits; for UserTesting one header per version in the quick tier)
+				let mut genuine = false;
+				let mine = testing && *eb == min_eb && (*ct == ChainTypes::AutomatedTesting || thorough || (user_mined < 5 && *h % 3 == 0));
+				if mine {
+					let mut b = bh.clone();
+					let r = catch(std::panic::AssertUnwindSafe(move || {
+						let r = pow_size(&mut b, Difficulty::zero(), ps, min_eb);
+						(r.is_ok(), b)
+					}));
+					match r {
+						Ok((true, b)) => {
+							bh = b;
+							genuine = true;
+							mined += 1;
+							if *ct == ChainTypes::UserTesting {
+								user_mined += 1;
+							}
+						}
+						_ => mine_attempt_fail += 1,
+					}
+				}
+				if !genuine {
+					// any header: for a wrong count the answer is fixed regardless of the cycle
+					let mut ns: Vec<u64> = vec![];
+					while ns.len() < ps {
+						let x = rng.next() & mask;
+						if !ns.contains(&x) {
+							ns.push(x);
+						}
+					}
+					ns.sort_unstable();
+					bh.pow.proof.nonces = ns;
+				}
+				headers += 1;
+				let full = bh.pow.proof.nonces.clone();
+				let last = full[ps - 1];
+				// every count 0 ..= proofsize
+				for count in 0..=ps {
+					let mut b = bh.clone();
+					b.pow.proof.nonces = full[..count].to_vec();
+					let what = if count == 0 { "empty" } else if count < ps { "prefix" } else if genuine { "full-genuine" } else { "full-random" };
+					let r = offer(&b, cname, ps, genuine, what, out, &mut st, &mut bad);
+					if count == ps && genuine && r == "ok" {
+						genuine_full_ok += 1;
+					}
+				}
+				// proofsize + 1, + 2: duplicates of the last nonce, larger values, out of range
+				let exts: Vec<Vec<u64>> = vec![
+					vec![last],
+					vec![last, last],
+					vec![last + 1],
+					vec![last + 1, last + 2],
+					vec![mask + 1 + rng.below(1000)],
+					vec![last.saturating_add(rng.range(1, 1 << 20)), u64::MAX],
+				];
+				for e in exts.iter() {
+					let mut b = bh.clone();
+					b.pow.proof.nonces.extend_from_slice(e);
+					offer(&b, cname, ps, genuine, "extended", out, &mut st, &mut bad);
+				}
+				// the same header read back in the skip-proof deserialisation mode: no nonces
+				if let Ok(bytes) = ser::ser_vec(&bh, ser::ProtocolVersion::local()) {
+					let back: Result<BlockHeader, ser::Error> =
+						ser::deserialize(&mut &bytes[..], ser::ProtocolVersion::local(), ser::DeserializationMode::SkipPow);
+					if let Ok(b) = back {
+						skip_total += 1;
+						if b.pow.proof.nonces.is_empty() && b.pre_pow() == bh.pre_pow() {
+							skip_ok += 1;
+						}
+						offer(&b, cname, ps, genuine, "skip-proof-header", out, &mut st, &mut bad);
+					}
+				}
+				// an empty proof on an unrelated header
+				{
+					let mut b = BlockHeader::default();
+					b.height = rng.below(1 << 21);
+					b.version = header_version(b.height);
+					b.prev_hash = Hash::from_vec(&rng.bytes(32));
+					b.pow.nonce = rng.next();
+					b.pow.proof.edge_bits = *eb;
+					b.pow.proof.nonces = vec![];
+					offer(&b, cname, ps, false, "empty-unrelated", out, &mut st, &mut bad);
+				}
+			}
+		}
+		// the chain's own genesis header (a real proof of work on Mainnet / Testnet)
+		let g = match ct {
+			ChainTypes::Mainnet => Some(genesis::genesis_main().header),
+			ChainTypes::Testnet => Some(genesis::genesis_test().header),
+			_ => None,
+		};
+		if let Some(gh) = g {
+			let b0 = gh.clone();
+			let genuine = catch(move || verify_size(&b0).is_ok()).unwrap_or(false);
+			out.raw(&format!(
+				"#STAT vsize {} genesis header: edge_bits={} nonces={} verify_size accepts it: {}",
+				cname, gh.pow.proof.edge_bits, gh.pow.proof.nonces.len(), genuine
+			));
+			let full = gh.pow.proof.nonces.clone();
+			if full.len() == ps {
+				headers += 1;
+				for count in 0..=ps {
+					let mut b = gh.clone();
+					b.pow.proof.nonces = full[..count].to_vec();
+					let what = if count == 0 { "empty" } else if count < ps { "prefix" } else if genuine { "full-genuine" } else { "full-random" };
+					let r = offer(&b, cname, ps, genuine, what, out, &mut st, &mut bad);
+					if count == ps && genuine && r == "ok" {
+						genuine_full_ok += 1;
+					}
+				}
+				for e in [vec![full[ps - 1]], vec![full[ps - 1] + 1], vec![full[ps - 1] + 1, full[ps - 1] + 2]].iter() {
+					let mut b = gh.clone();
+					b.pow.proof.nonces.extend_from_slice(e);
+					offer(&b, cname, ps, genuine, "extended", out, &mut st, &mut bad);
+				}
+			}
+		}
+	}
+	out.raw(&format!(
+		"#STAT vsize headers={} of which mined by pow_size={} (mining attempts that failed={}) genuine full proofs accepted={} skip-proof headers with empty nonce vector and unchanged pre_pow={}/{} rule violations={}",
+		headers, mined, mine_attempt_fail, genuine_full_ok, skip_ok, skip_total, bad
+	));
+	let mut vv: Vec<String> = versions.iter().map(|(k, v)| format!("{}={}", k, v)).collect();
+	vv.sort();
+	out.raw(&format!("#STAT vsize heights by scheduled header version: {}", vv.join(" ")));
+	let mut keys: Vec<&(String, &'static str)> = st.keys().collect();
+	keys.sort();
+	for k in keys {
+		let mut parts: Vec<String> = st[k].iter().map(|(r, c)| format!("{}={}", r, c)).collect();
+		parts.sort();
+		out.raw(&format!("#STAT vsize {} {}: {}", k.0, k.1, parts.join(" ")));
+	}
+}
+
 fn main() {
 	quiet_panics();
 	let args: Vec<String> = std::env::args().collect();
@@ -2364,6 +2620,7 @@ fn main() {
 		"select" => select(&mut out, &mut rng, thorough),
 		"hist" => hist(&mut out, &mut rng, thorough),
 		"dif" => dif(&mut out, &mut rng, thorough),
+		"vsize" => vsize(&mut out, &mut rng, thorough),
 		_ => panic!("unknown mode"),
 	}
 	out.flush();
